@@ -289,6 +289,10 @@ def check_text(ctx: Ctx, g, gname: str, text: str, trees, origin: str):
     cls = ":smt-atom-renormalised" if only_smt_text else ""
     if only_smt_text:
         sig = "any"  # the cause is in Z3's printing of the atom, independent of where the constraint came from
+    if u2 != u1 and alpha is True and not cls:
+        # the two formula objects have the same nameless form (verified checker): the texts differ in the NAMES of bound
+        # variables only
+        sig, cls = "any", ":bound-variable-names-only"
     if u2 != u1:
         ctx.violation(f"second-unparse-differs:{sig}{cls}", f"unparse(parse(unparse(f))) differs from unparse(f): {u1!r} vs {u2!r}", dict(replay, second=u2))
     if alpha is False:
